@@ -26,6 +26,7 @@ RULE = (
     "random histories: 1-3 instances x 1-3 signals, 1-3 dispatcher tasks (bursts of 1-4 dispatches, yields and virtual sleeps between), 1-4 "
     "subscribers (1-3 signals each, filter none/all/mod-2/mod-3, max_queue_size in {0,1,2,3,5,50}, consumer styles eager / leaves after n / "
     "slow / raises / cancelled mid-iteration), 0-2 wait_event callers; both backends, trio scheduling seeded and half fully shuffled. "
+    "Owners may be value-equal, re-created at the same address, or a shallow copy of an owner whose signals were already used. "
     "Non-trivial: >= 2 subscriber windows containing events; distinct = interleaving signature (sequence of (actor, event-kind))."
 )
 DECIDING = {
